@@ -12,6 +12,7 @@ SOL = {"name": "sol", "corpus": True, "timeout": 3000}
 HIST = {"name": "hist", "corpus": True}
 HISTUC = {"name": "histuc", "corpus": True}
 RC = {"name": "rc", "corpus": True}
+HISTW = {"name": "histw", "corpus": True}
 
 ENGINE_TXT = ("Engine theorems (NR.Props.EngineThms, generic in the cached values, the step function and the exact "
               "checks): a completing propagation pass establishes cache = forward propagation and every check on what "
@@ -39,7 +40,7 @@ PROPS = {
         },
         "lean_props": ["C01", "EngineThms"],
         "facts": ["CheckFacts"],
-        "streams": [SOL, HIST],
+        "streams": [SOL, HIST, HISTW],
     },
     "C02": {
         "claim": {
@@ -55,7 +56,7 @@ PROPS = {
         },
         "lean_props": ["C02", "C02W", "EngineThms"],
         "facts": ["CheckFacts"],
-        "streams": [SOL, HIST, RC],
+        "streams": [SOL, HIST, HISTW, RC],
     },
     "C03": {
         "claim": {
@@ -176,7 +177,7 @@ PROPS = {
         },
         "lean_props": ["C09", "C09W", "C09G", "C01"],
         "facts": ["CheckFacts"],
-        "streams": [HIST, {"name": "histw", "corpus": True}],
+        "streams": [HIST, HISTW],
     },
     "C10": {
         "claim": {
@@ -215,7 +216,7 @@ PROPS = {
         },
         "lean_props": ["C11"],
         "facts": ["CopyFacts"],
-        "streams": [HIST, {"name": "copyrace", "race": True, "model": False}],
+        "streams": [HIST, HISTUC, {"name": "copyrace", "race": True, "model": False}],
     },
     "C12": {
         "claim": {
